@@ -15,9 +15,12 @@
 // Argument kinds: n hex string, i/u int/unsigned (32 bit), l/U long/unsigned long, q/Q long long/unsigned long long,
 //   d double (16 hex digits, bit pattern), p synthetic pointer (decimal), m hex bytes, z size, o object o0..o7,
 //   b output buffer b0..b3.
+// crashOnFailure(non-zero) is part of the language: the crash method is a recorder (`crash` observation).
 #include "fixture.h"
 #include "CppUTestExt/MockSupport.h"
 #include "CppUTestExt/MockSupport_c.h"
+#include "CppUTest/MemoryLeakDetector.h"
+#include "CppUTest/MemoryLeakWarningPlugin.h"
 #include <stdint.h>
 #include <errno.h>
 #include <limits.h>
@@ -99,6 +102,10 @@ void dump_out() {
             memcpy(g_outSeen[i], g_out[i], OUTSZ);
         }
 }
+
+// crashOnFailure: the crash method of the test shell is replaced by a recorder, so that "the reporter crashed the test"
+// is an observation (one `crash` line per call of UT_CRASH) and the run goes on to the terminator
+void record_crash() { obs("crash"); fflush(stdout); }
 
 // ------------------------------------------------------------------------------------------------ op table
 struct FieldSig { const char* table; const char* field; const char* sig; };
@@ -191,7 +198,6 @@ Op parse_op(const vh::Words& w, const std::string& raw) {
                 for (size_t k = 0; k + 1 < o.a.size(); k++)
                     if (o.sig[k] == 'm' && o.sig[k + 1] == 'z' && vh::to_u64(o.a[k + 1]) > o.dec[k].size()) return o;
                 if (o.field == "withOutputParameterReturning" && vh::to_u64(o.a[2]) > OUTSZ) return o;
-                if (o.field == "crashOnFailure" && o.a[0] != "0") return o;      // crashing on failure is excluded
                 o.ok = true; return o;
             }
     }
@@ -530,7 +536,14 @@ void run_ops(size_t from, size_t to) {
         vh::emit("> %c %lu %s", g_run, (unsigned long) g_i, g_o->raw.c_str());
         fflush(stdout);
         if (g_o->t == 'P' || g_o->t == 'T') continue;
-        if (g_run == 'x') exec_x(); else exec_c();
+        // how a failing call is left: the C++ interface throws (this build has exceptions), the C interface must use the
+        // exception-free terminator (longjmp: control never comes back here).  An exception is recorded and passed on.
+        try {
+            if (g_run == 'x') exec_x(); else exec_c();
+        } catch (...) {
+            obs("left exception"); fflush(stdout);
+            throw;
+        }
         dump_out();
     }
 }
@@ -554,10 +567,19 @@ std::string failure_text(const std::string& out) {
     return t.substr(b);
 }
 
+// allocations made through the (tracked) global operator new that are still alive: the adaptor nodes of the C layer
+// are such allocations, so "removeAllComparatorsAndCopiers gives every node back" is observable as a difference of 0
+long live_allocations() {
+    return (long) MemoryLeakWarningPlugin::getGlobalDetector()->totalMemoryLeaks(mem_leak_period_all);
+}
+
 void one_run(char which) {
     g_run = which;
+    const long allocatedBefore = live_allocations();
+    size_t failures = 0;
     memset(g_out, 0xA5, sizeof g_out); memset(g_outSeen, 0xA5, sizeof g_outSeen);
     for (int i = 0; i < 8; i++) { g_objs[i].key = i < 6 ? i / 2 : 90 + i; g_objs[i].id = 100 + i; g_objs[i].wild = i >= 6; }
+    UtestShell::setCrashMethod(record_crash);
     {
         TestTestingFixture fixture;
         fixture.setTestFunction(body);
@@ -569,12 +591,22 @@ void one_run(char which) {
         obs("objects %s", vh::hex(g_objs, sizeof g_objs).c_str());     // a copier must never write into its source
         obs("verdict %lu %s", (unsigned long) fixture.getFailureCount(),
             vh::hex(failure_text(fixture.getOutput().asCharString())).c_str());
+        failures = fixture.getFailureCount();
     }
     // leave the global mock as a fresh process would find it
+    UtestShell::resetCrashMethod();
+    if (which == 'c') mock_c()->crashOnFailure(0);
+    mock().crashOnFailure(false);
     mock().clear();
     mock().removeAllComparatorsAndCopiers();
     if (which == 'c') { mock_c()->removeAllComparatorsAndCopiers(); mock().clear(); }
     x_sup = 0; x_ec = 0; x_ac = 0; c_sup = 0; c_ec = 0; c_ac = 0;
+    for (size_t i = 0; i < g_xcomparators.size(); i++) delete g_xcomparators[i];
+    for (size_t i = 0; i < g_xcopiers.size(); i++) delete g_xcopiers[i];
+    std::vector<XComparator*>().swap(g_xcomparators);
+    std::vector<XCopier*>().swap(g_xcopiers);
+    // only for passing runs: a failing C call is left by longjmp, which skips the destructors of the failure objects
+    if (failures == 0) obs("leaked %ld", live_allocations() - allocatedBefore);
 }
 
 void run_case(const vh::Case& c) {
